@@ -18,7 +18,7 @@ import GB.C16.Props   -- idem
 -/
 open GB GB.C18
 
-def C18_table : List Acc := GB.Generated.accesses.map (fun a => ⟨a.field, a.fn, a.write, a.locks, a.own, a.fresh⟩)
+def C18_table : List Acc := GB.Generated.accesses.map (fun a => ⟨a.field, a.fn, a.write, a.locks, a.own, a.fresh, a.pre, a.post, a.roots⟩)
 
 /-- The extractor type-checked every package without errors. -/
 theorem C18_lockset_loaded : GB.Generated.locksetLoadErrors = 0 := by decide
@@ -67,8 +67,8 @@ theorem C18_lockset (a b : Acc) (ha : a ∈ C18_table) (hb : b ∈ C18_table) (h
     (race detector scenario `straggler-http`). -/
 theorem C18_writtenStatus_needs_fence :
     ∃ a b, a ∈ C18_table ∧ b ∈ C18_table ∧ conflict a b = true ∧ commonLock a b = false ∧ confined a b = true := by
-  refine ⟨⟨"webbridge.responseWrapper.writtenStatus", "webbridge.responseWrapper.Write", true, [], [], false⟩,
-          ⟨"webbridge.responseWrapper.writtenStatus", "webbridge.writeError", false, [], [], false⟩, ?_, ?_, ?_, ?_, ?_⟩
+  refine ⟨⟨"webbridge.responseWrapper.writtenStatus", "webbridge.responseWrapper.Write", true, [], [], false, [], [], ["webbridge.responseWrapper.Write"]⟩,
+          ⟨"webbridge.responseWrapper.writtenStatus", "webbridge.writeError", false, [], [], false, ["call:Forward"], [], ["webbridge.TranscodedHTTPBridge.ServeHTTP"]⟩, ?_, ?_, ?_, ?_, ?_⟩
   · decide +kernel
   · decide +kernel
   · decide
@@ -268,6 +268,93 @@ example : HB.run HB.St.init [.acc 0 1, .store 0 9 1, .spawn 0 1, .spawn 0 2, .lo
 example : HB.run HB.St.init [.spawn 0 1, .recvClosed 1 7] = none := by decide
 example : HB.run HB.St.init [.wgAdd 0 3 1, .spawn 0 1, .acc 1 0, .wgDone 1 3, .wgWait 0 3, .acc 0 1, .send 0 4, .recv 1 4,
     .cancel 0 6, .ctxDone 1 6] ≠ none := by decide
+
+
+/-! ## CHECKED confinement rows (happens-before operations regenerated per access) and published-object immutability -/
+
+/-- Which rows of the confinement table are CHECKED against the regenerated pre/post/roots columns (the rest is prose backed by
+    other slices' invariants or trusted). -/
+theorem C18_checked_rows :
+    (confinement.filter (fun c => c.mech.isChecked)).map (·.field) =
+      ["reflection.Resolver.lastProtoHash", "reflection.Resolver.lastServicesHash", "reflection.Resolver.methodPriority",
+       "reflection.Resolver.resolveNow", "webbridge.gRPCWebStream.trailer"] := by decide
+
+/-- Every name pair of `syncPairs` is a release/acquire pair on ONE object: atomic store → load (`C18_hb_atomic_store_load`),
+    close → receive (`C18_hb_close_recv`). -/
+theorem C18_sync_pairs_are_edges :
+    syncPairs = [("store:" ++ "reflection.Resolver.notifyResolveNow", "load:" ++ "reflection.Resolver.notifyResolveNow"),
+                 ("close:" ++ "reflection.Resolver.resolveNow", "recv:" ++ "reflection.Resolver.resolveNow")] := by decide
+
+def C18_wakeupOk (t : List Acc) : Bool := t.all fun a => t.all fun b =>
+  !(conflict a b && a.field == "reflection.Resolver.resolveNow") ||
+  ((a.roots == ["go1:reflection.Resolver.watch"] && b.roots == ["go1:reflection.Resolver.watch"]) || (edgeTo a b && edgeTo b a))
+
+/-- The resolver's wake-up row, CHECKED on the regenerated table: every conflicting pair of accesses to `Resolver.resolveNow`
+    (the poller re-arming the channel in `newResolveNow`, the once-closure of a `ResolveNow` caller reading it to close it, the
+    poller's `select` reading it) either runs on the one poller goroutine of the object (`go1:` = the single `go r.watch()` on the
+    still unpublished Resolver), or is ordered BOTH ways by a release/acquire pair: the write is followed by the atomic
+    `notifyResolveNow.Store` and the closure is entered only through a `Load` of it; the closure's read is followed by
+    `close(r.resolveNow)` and the next write is dominated by the receive from that channel. Moving `r.newResolveNow()` out from
+    under `case <-r.resolveNow:` removes "recv" from the write's `pre` column and this theorem (and `C18_lockset_partial`) fails
+    with the pair newResolveNow / newResolveNow#1 named by the driver. -/
+theorem C18_wakeup_row_checked : C18_wakeupOk C18_table = true := by decide +kernel
+
+theorem C18_wakeup_row_forall (a b : Acc) (ha : a ∈ C18_table) (hb : b ∈ C18_table) (hc : conflict a b = true)
+    (hf : a.field = "reflection.Resolver.resolveNow") :
+    (a.roots = ["go1:reflection.Resolver.watch"] ∧ b.roots = ["go1:reflection.Resolver.watch"]) ∨
+    (edgeTo a b = true ∧ edgeTo b a = true) := by
+  have h := C18_wakeup_row_checked
+  unfold C18_wakeupOk at h
+  rw [List.all_eq_true] at h
+  have h1 := h a ha
+  rw [List.all_eq_true] at h1
+  have h2 := h1 b hb
+  simp only [hc, hf, beq_self_eq_true, Bool.and_self, Bool.not_true, Bool.false_or, Bool.or_eq_true, Bool.and_eq_true,
+    beq_iff_eq] at h2
+  exact h2
+
+/-- Non-vacuity: the cross-goroutine pair is in the table, and it is ordered by edges, not by the single-goroutine clause. -/
+theorem C18_wakeup_pair_edges :
+    ∃ w r, w ∈ C18_table ∧ r ∈ C18_table ∧ w.fn = "reflection.Resolver.newResolveNow" ∧ w.write = true ∧ w.fresh = false ∧
+      r.fn = "reflection.Resolver.newResolveNow#1" ∧ conflict w r = true ∧ edgeTo w r = true ∧ edgeTo r w = true ∧
+      r.pre.contains "once" = true := by
+  refine ⟨⟨"reflection.Resolver.resolveNow", "reflection.Resolver.newResolveNow", true, [], [], false,
+      ["recv:reflection.Resolver.resolveNow"], ["store:reflection.Resolver.notifyResolveNow"], ["go1:reflection.Resolver.watch"]⟩,
+    ⟨"reflection.Resolver.resolveNow", "reflection.Resolver.newResolveNow#1", false, [], [], false,
+      ["load:reflection.Resolver.notifyResolveNow", "once"], ["close:reflection.Resolver.resolveNow"], ["reflection.Resolver.newResolveNow#1"]⟩,
+    ?_, ?_, rfl, rfl, rfl, rfl, ?_, ?_, ?_, ?_⟩
+  · decide +kernel
+  · decide +kernel
+  · decide
+  · decide
+  · decide
+  · decide
+
+/-- The other CHECKED rows as one statement over the regenerated table: a conflicting pair that lies in a checked row by name is
+    accepted only through that row's check (goroutine root / edges / dominated by the call of Forward) or a common own-mutex. -/
+theorem C18_checked_rows_hold :
+    (C18_table.all fun a => C18_table.all fun b =>
+      !conflict a b || commonLock a b || !(confinement.any fun c => rowOf c a b && c.mech.isChecked) ||
+      (confinement.any fun c => rowOf c a b && c.mech.isChecked && mechOk c.mech a b)) = true := by decide +kernel
+
+/-- "pump, then handler after Forward returned": `ProxyForwarder.Forward` defers `wg.Wait()` and each of its two pump goroutines
+    defers `wg.Done()` (`C18_hb_waitgroup`: Wait returns after the Dones), regenerated from grpcadapter/forwarder.go. -/
+theorem C18_forward_joins :
+    GB.Generated.goJoins.find? (fun j => j.1 == "grpcadapter.ProxyForwarder.Forward") =
+      some ("grpcadapter.ProxyForwarder.Forward", ["wait:$wg"],
+        [("grpcadapter.ProxyForwarder.Forward#1", ["done:$wg"]), ("grpcadapter.ProxyForwarder.Forward#2", ["done:$wg"])]) := by
+  decide
+
+/-- Objects published to lock-free readers are immutable: over all tracked packages there is NO write (field or element level)
+    to a non-fresh object of a published type outside a mutex of that object, NO `e[:0]` re-slicing of a slice somebody else may
+    hold (retained backing array reused for the next version), and NO aliasing append (D34). Published types = struct types
+    stored into an atomic.Pointer / atomic.Value / sync.Map, closed under reachability through fields, plus the element types
+    the pattern table publishes through `container/list` values. -/
+theorem C18_published_immutable : GB.Generated.postPublicationWrites = [] := by decide
+
+theorem C18_published_types :
+    GB.Generated.publishedTypes = ["grpcadapter.AdaptedClientConn", "grpcadapter.adaptedClientState", "routing.patternRoute",
+      "routing.serviceRoute", "routing.staticPatternRoutingTable", "routing.targetPatternRoutes"] := by decide
 
 
 /-! ## CONFINEMENT BACKING block: the non-mutex ordering arguments of `GB.C18.confinement`, as theorems of the
